@@ -24,6 +24,13 @@ EXTENDS Integers, Sequences, FiniteSets, TLC
 CONSTANTS MaxSteps, MaxFids, Fixed
 Dev(x) == x \notin Fixed
 
+\* The tag pool is the same allocator over 1..NoTag-1: at most 0xFFFE calls are outstanding with pairwise distinct
+\* tags, none of them NOTAG; a further call fails instead of waiting or borrowing (the harness runs 0xFFFE + 3
+\* concurrent calls against a server that answers nothing until all have arrived).
+NoTag == 65535
+TagSpace == 1..(NoTag - 1)
+ASSUME NoTag \notin TagSpace /\ Cardinality(TagSpace) = 65534
+
 Outcomes == {"ok", "refused", "lost", "garbled"}
 
 VARIABLES cache, start,   \* pool.go
